@@ -39,12 +39,12 @@ Qed.
    (provisional_version == 3.0 and las3_section) is false wherever the model calls route: LAS 3.0
    sections are outside the model (step_section answers EUnsupported before routing).
    None on both sides: the title is "~" alone, section_title[1] raises IndexError. *)
-Theorem route_pin : forall title sec l,
+Theorem route_pin : forall title sec l version_is_3,
   startswith [ch_tilde] title = true ->
   option_map (fun letter => route title letter sec l) (second_upper title)
-  = option_map (fun key => store_section key sec l) (py_route_key title false).
+  = option_map (fun key => store_section key sec l) (py_route_key title version_is_3 false).
 Proof.
-  intros title sec l Ht. destruct title as [|t0 [|c r]]; [discriminate Ht|reflexivity|].
+  intros title sec l v3 Ht. destruct title as [|t0 [|c r]]; [discriminate Ht|reflexivity|].
   cbn [startswith] in Ht. rewrite andb_true_r in Ht. apply N.eqb_eq in Ht. unfold ch_tilde in Ht. subst t0.
   unfold py_route_key, second_upper, route. rewrite pyo_item_second, pyo_slice_from1.
   cbn [obind option_map pyo_upper map str_eqb tl]. unfold pyo_in, ch_us. rewrite !andb_true_r, !contains_single.
